@@ -99,6 +99,17 @@ def Statement_aggregate_reads : Prop :=
     (s.run (.aggLen gs)).1 = s ∧ (s.run (.aggTriples gs pat)).1 = s ∧
     (s.run (.aggContains gs pat)).1 = s ∧ (s.run (.aggQuads gs pat)).1 = s
 
+/-- `Graph.transitive_objects(x, p)` / `transitive_subjects(p, x)` (depth-first walk with the `remember` dict): the
+    graph is returned as it is; the start node is yielded, every node once, and everything yielded is the start node or
+    the object (subject) of a triple with predicate `p` of the graph being read -/
+def Statement_transitive_walk : Prop :=
+  ∀ (s : State) (x p : Nat) (fwd : Bool),
+    (s.run (.transitive x p fwd)).1 = s ∧
+    x ∈ transWalk s.visible p fwd (s.visible.length + 2) [x] [] ∧
+    (transWalk s.visible p fwd (s.visible.length + 2) [x] []).Nodup ∧
+    ∀ y ∈ transWalk s.visible p fwd (s.visible.length + 2) [x] [],
+      y = x ∨ ∃ t ∈ s.visible, t.2.1 = p ∧ y = (if fwd then t.2.2 else t.1)
+
 /-- the pre-fix JSON-LD serializer (kept as `serializeJsonldBuggy`) would satisfy the frame clause -/
 def Statement_jsonld_buggy_frame : Prop :=
   ∀ (s : State), WF s → s.serializeJsonldBuggy.1.quads = s.quads
@@ -253,6 +264,15 @@ theorem aggregate_reads : Statement_aggregate_reads := by
   · rintro ⟨t, h1, h2⟩; exact ⟨t, (ht t).mpr ⟨h1, h2⟩⟩
   · rintro ⟨t, h⟩; exact ⟨t, (ht t).mp h⟩
 
+theorem transitive_walk : Statement_transitive_walk := by
+  intro s x p fwd
+  refine ⟨rfl, transWalk_start _ _ _ _ _ _ _, transWalk_nodup _ _ _ _ _ _ List.nodup_nil, ?_⟩
+  intro y hy
+  rcases transWalk_sound _ _ _ _ _ _ y hy with h | h | h
+  · cases h
+  · exact Or.inl (List.mem_singleton.mp h)
+  · exact Or.inr h
+
 theorem same_store_view_is_noop : Statement_same_store_view_is_noop := by
   intro s g h
   refine ⟨graphView_eq h g, ?_⟩
@@ -394,6 +414,14 @@ example : (({ sample with defaultUnion := false } : State).run .len).2 = .nat 3 
     (sample.run .iter).2 = .quads sample.quads ∧
     (sample.run (.quads4 (none, none, none) (.ident (.iri 1)))).2
       = .quads [((1, 10, 2), .dflt), ((1, 10, 2), .iri 1)] := by decide
+
+/-- transitive walk over a cycle 1 → 2 → 1 plus a branch: terminates, each node once; hext writes a registered
+    non-empty default graph twice -/
+example : ((⟨[((1, 10, 2), .dflt), ((2, 10, 1), .dflt), ((2, 10, 3), .dflt), ((3, 11, 4), .dflt)],
+      [.dflt], false, true, .dflt, [], none⟩ : State).run (.transitive 1 10 true)).2 = .rows [[1, 2, 3]] ∧
+    (sample.run (.transitive 2 10 false)).2 = .rows [[2, 1]] ∧
+    (sample.run .serializeHext).2 = .blocks [(.dflt, [(1, 10, 2)]), (.iri 1, [(1, 10, 2)]),
+      (.bnode 3, [(4, 11, 20), (4, 11, 5)]), (.iri 2, []), (.dflt, [(1, 10, 2)])] := by decide
 
 /-! ### `skolemize(new_graph=…)`: a fresh graph is a read, a graph of the same store is a write -/
 
